@@ -117,7 +117,10 @@
 
 ; ---- step relations of C15: definitions, bindings (with their owner) and provider ownership are for life
 (define-fun defsKept ((o (Array Key Bytes)) (n (Array Key Bytes))) Bool
-  (forall ((name Str)) (! (=> (not (= (select o (KDef name)) bnil)) (= (select n (KDef name)) (select o (KDef name)))) :pattern ((select n (KDef name))) :pattern ((select o (KDef name))))))
+  (forall ((name Str)) (! (or (= (select n (KDef name)) (select o (KDef name)))
+        ; ... or it is new, and stored under its own name
+        (and (= (select o (KDef name)) bnil) (not (= (select n (KDef name)) bnil)) (= (ServiceDefinition_Name (dec_ServiceDefinition (select n (KDef name)))) name)))
+     :pattern ((select n (KDef name))) :pattern ((select o (KDef name))))))
 (define-fun bindsKept ((o (Array Key Bytes)) (n (Array Key Bytes))) Bool
   (forall ((s Str) (p Bytes)) (! (=> (bindFound o s p) (and (bindFound n s p) (= (ServiceBinding_Owner (bindOf n s p)) (ServiceBinding_Owner (bindOf o s p)))
       (= (ServiceBinding_ServiceName (bindOf n s p)) (ServiceBinding_ServiceName (bindOf o s p))) (= (ServiceBinding_Provider (bindOf n s p)) (ServiceBinding_Provider (bindOf o s p)))))
@@ -462,6 +465,9 @@
 (define-fun ptrAllOK ((r (Array Key Bytes))) Bool (forall ((id Bytes)) (! (ptrOK r id) :pattern ((select r (KExpH id))) :pattern ((select r (KNewH id))))))
 (define-fun schedInv ((r (Array Key Bytes))) Bool (and (ctxAllOK r) (expAllOK r) (newAllOK r) (ptrAllOK r)))
 
+; every stored definition is stored under its own name (written only by AddServiceDefinition / genesis import under KDef(def.Name))
+(define-fun defInv ((r (Array Key Bytes))) Bool
+  (forall ((name Str)) (! (=> (not (= (select r (KDef name)) bnil)) (= (ServiceDefinition_Name (dec_ServiceDefinition (select r (KDef name)))) name)) :pattern ((select r (KDef name))))))
 ; the record-level validity rules of a binding (what ServiceBinding.Validate is proved to enforce; part of WF)
 (define-fun bindRecOK ((b ServiceBinding)) Bool
   (and (> (blen (ServiceBinding_Provider b)) 0) (> (blen (ServiceBinding_Owner b)) 0) (coinsValid (ServiceBinding_Deposit b)) (> (ServiceBinding_QoS b) 0)))
